@@ -11,6 +11,9 @@
 #include <map>
 #include <vector>
 #include <exception>
+#include <signal.h>
+#include <sys/time.h>
+#include <unistd.h>
 #include "symrt.h"
 
 static std::map<std::string, int> g_choice;
@@ -58,6 +61,9 @@ int __sym_choose(const char* name, int lo, int hi) {
 void __sym_fail(const char* msg) { printf("REPLAY-FAIL %s\n", msg); fflush(stdout); _Exit(1); }
 void __sym_prune(void) { printf("REPLAY-PRUNED\n"); fflush(stdout); _Exit(2); }
 void __sym_check(int cond, const char* msg) { if (!cond) __sym_fail(msg); }
+static char wd_msg[200];
+static void on_wd(int) { printf("REPLAY-FAIL %s\n", wd_msg); fflush(stdout); _Exit(1); }
+void __sym_watchdog(double s, const char* msg) { snprintf(wd_msg, sizeof wd_msg, "%s", msg ? msg : "no termination"); struct itimerval it; memset(&it, 0, sizeof it); it.it_value.tv_sec = (long)s; it.it_value.tv_usec = (long)((s - (long)s) * 1e6); signal(SIGVTALRM, on_wd); setitimer(ITIMER_VIRTUAL, &it, 0); }
 void __sym_note(const char*) {}
 void __sym_label(const char*) {}
 int __sym_is_symbolic(double) { return 0; }
